@@ -434,6 +434,20 @@ func TranslatePathsD(paths PathsD, dx, dy float64) PathsD {
 }
 
 func TrimCollinear64(path Path64, isOpen bool) Path64 {
+	if isOpen {
+		return trimCollinearOnce(path, isOpen)
+	}
+	// removing a spike can make its neighbours collinear, so repeat until stable
+	for {
+		result := trimCollinearOnce(path, isOpen)
+		if len(result) == len(path) || len(result) == 0 {
+			return result
+		}
+		path = result
+	}
+}
+
+func trimCollinearOnce(path Path64, isOpen bool) Path64 {
 	l := len(path)
 	i := 0
 
